@@ -2,6 +2,7 @@ package agent
 
 import (
 	"context"
+	"time"
 
 	"github.com/postalsys/muti-metroo/internal/identity"
 	"github.com/postalsys/muti-metroo/internal/peer"
@@ -173,4 +174,45 @@ func harnessC39OwnConcurrent() {
 	verif_drain()
 	verif_assert(ry != nil && len(ry.Data) == 1 && ry.Data[0] == 0xB2, "C39/own-request-answered-by-foreign-response")
 	verif_assert(rz != nil && len(rz.Data) == 1 && rz.Data[0] == 0xC3, "C39/own-request-answered-by-foreign-response")
+}
+
+// an own request that its caller gives up on (context deadline) leaves no
+// record behind: a later relayed request that happens to carry the same
+// identifier still gets its answer back to the agent that asked
+func harnessC39AbandonedRequest() {
+	t := c39Transit()
+	A, X, Y := c16Peer(0), c16Peer(1), c16Peer(2)
+	t.routeMgr.AgentTable().AddRoute(&routing.AgentRoute{AgentID: X, NextHop: X, OriginAgent: X, Metric: 1, Path: []identity.AgentID{X}, Sequence: 1})
+	c16Log = nil
+	verif_set_now(1 << 40)
+	ctx, cancel := context.WithTimeout(context.Background(), time.Second)
+	defer cancel()
+	var errOwn error
+	done := false
+	go func() {
+		_, errOwn = t.SendControlRequestWithData(ctx, X, protocol.ControlTypeStatus, nil)
+		done = true
+	}()
+	verif_drain() // sent; X never answers
+	for i := 0; i < 3 && verif_timers() > 0; i++ {
+		verif_fire_timer(0) // the caller's deadline
+		verif_drain()
+	}
+	verif_reach("C39/abandoned")
+	verif_assert(done && errOwn != nil, "C39/abandoned-request-did-not-return")
+	verif_assert(len(t.pendingControl) == 0, "C39/abandoned-request-record-left")
+	// A's request through T to Y, with the identifier T's own abandoned request had
+	var own uint64
+	for _, s := range c16Log {
+		if s.f.Type == protocol.FrameControlRequest && s.to == X {
+			if req, err := protocol.DecodeControlRequest(s.f.Payload); err == nil {
+				own = req.RequestID
+			}
+		}
+	}
+	c16Log = nil
+	c39Request(t, A, own, Y, 1)
+	c39Response(t, Y, own, 0xA1)
+	toA, nA := c39Delivered(0xA1)
+	verif_assert(nA == 1 && toA == A, "C39/relayed-answer-swallowed-by-an-abandoned-own-request")
 }
